@@ -39,7 +39,10 @@ vars == <<total, fire, polls, post, pc, stack, inParser, chain, res>>
 
 Fired == polls > fire
 
-Init == /\ total \in 0..MaxPolls /\ fire \in 0..total /\ polls = 0 /\ post = 0 /\ pc = "run"
+\* total >= 1: a context-aware call polls on entry whatever its input is (an input without a statement gives its
+\* loops nothing to iterate over; a context that is already done must be reported all the same - the driver runs
+\* every entry point on statement-less inputs and flags a call that makes no poll at all)
+Init == /\ total \in 1..MaxPolls /\ fire \in 0..total /\ polls = 0 /\ post = 0 /\ pc = "run"
         /\ stack = <<>> /\ inParser = FALSE /\ chain = TRUE /\ res = "none"
 
 \* a poll that does not observe done: the call goes on
